@@ -508,7 +508,7 @@ class OpenRPC(Specification):
                     description=schema.get('description', UNSET),
                     required=name in params_schema.get('required', []),
                     deprecated=schema.get('deprecated', UNSET),
-                ) for name, schema in params_schema['properties'].items()
+                ) for name, schema in params_schema.get('properties', {}).items()
             ]
 
             spec.components.schemas = schemas = spec.components.schemas or {}
